@@ -197,7 +197,9 @@ def one_run(run, ct, net, mode, sets, failing, post, objective, seed, M, real_po
         events = [["submit", i] for i in range(1, len(ids) + 1)] + [["report", i] for i in ids]
         P = max(M, 1)
     if any(i is None for i in ids):
-        return None
+        # real methods in a real pool: trial identity is not observable; the trace degenerates to the report count
+        ids = list(range(1, len(ids) + 1))
+        events = [["submit", i] for i in ids] + [["report", i] for i in ids]
     order = sorted(set(s for s in opt.scores if s != float("inf")))
     rank = {s: k + 1 for k, s in enumerate(order)}
     score = [INF] * max(len(ids), M)
@@ -207,6 +209,11 @@ def one_run(run, ct, net, mode, sets, failing, post, objective, seed, M, real_po
     if "tree" in opt.best:
         bp = opt.best.get("params", {})
         best_id = CTX.tag2id.get(bp.get("tag"), -1)
+        if "verif" not in methods:
+            fin_ = [s for s in opt.scores if s != float("inf")]
+            best_id = opt.scores.index(min(fin_)) + 1 if fin_ else 0
+            if opt.best["score"] != min(fin_):
+                best_id = -1
     hcase = {"M": M, "P": P, "events": events, "score": score, "Inf": INF, "best": best_id, "nscores": len(opt.scores)}
     # ---- figures of the winner vs the returned tree -------------------------------
     snap = None
@@ -223,10 +230,10 @@ def one_run(run, ct, net, mode, sets, failing, post, objective, seed, M, real_po
     fin = [s for s in opt.scores if s != float("inf")]
     if fin and b["score"] != min(fin):
         problems.append("best score is not the minimum over the trials")
-    if len(opt.scores) > M or CTX.count > M:
+    if len(opt.scores) > M or (CTX.count > M and "verif" in methods):
         problems.append(f"ran {CTX.count} trials / reported {len(opt.scores)} for max_repeats={M}")
     # figures recorded per trial: failed trials are inf, others equal an independent rebuild (no post-processing only)
-    if post == "none":
+    if post == "none" and "verif" in methods:
         for i, f_, w_, s_ in zip(ids, opt.costs_flops, opt.costs_write, opt.costs_size):
             if i in failing:
                 if f_ != float("inf"):
@@ -315,6 +322,25 @@ def run(run):
             run.nontrivial(("threads", net.eq(), str(sorted(failing))))
             if r:
                 results.append(r)
+    # real process pools (B direction, weak trace: submissions and completions are not observable)
+    from concurrent.futures import ProcessPoolExecutor
+    import multiprocessing
+    with ProcessPoolExecutor(2, mp_context=multiprocessing.get_context("fork")) as pp:
+        for _ in range(2 if quick else 12):
+            net = rng.choice(pool_nets)
+            r = one_run(run, ct, net, "processes", None, set(), rng.choice(["none", "reconf", "slicing"]),
+                        rng.choice(OBJECTIVES), rng.randrange(10**6), 6, real_pool=pp, methods=("greedy", "random-greedy"))
+            run.count()
+            run.nontrivial(("processes", net.eq()))
+            if r:
+                results.append(r)
+    for _ in range(1 if quick else 6):
+        net = rng.choice(pool_nets)
+        r = one_run(run, ct, net, "loky", None, set(), rng.choice(["none", "reconf"]), rng.choice(OBJECTIVES[:4]),
+                    rng.randrange(10**6), 6, real_pool=2, methods=("greedy",))
+        run.count()
+        if r:
+            results.append(r)
     judge(run, results)
     run.cov["rule"] = ("schedules = report orders enumerated by TLC from HyperOpt.tla (7 trials, window 5; quick: 140 sampled, "
                        "thorough: all) forced on the real HyperOptimizer through a fake pool, x scripted failing trials x 5 "
